@@ -36,6 +36,56 @@ class FakeDatetimeModule:
         self.datetime = _D
 
 
+class FakeTimeModule:
+    """`time` as seen by the solver modules: every clock function reads the scripted clock (without ticking it, so the
+    positions of the datetime readings the model talks about do not move); everything else is the real module."""
+
+    def __init__(self, clock):
+        import time as _t
+        self._t = _t
+        self._clock = clock
+
+    def _secs(self):
+        return 1000.0 + self._clock.t / 1e6
+
+    def monotonic(self):
+        return self._secs()
+    time = perf_counter = process_time = monotonic
+
+    def monotonic_ns(self):
+        return int(self._secs() * 1e9)
+    time_ns = perf_counter_ns = process_time_ns = monotonic_ns
+
+    def __getattr__(self, name):
+        return getattr(self._t, name)
+
+
+def script_other_clocks(clock):
+    """Whatever clock API the solver modules use is an oracle: replace a `time` module attribute, or clock functions
+    imported from it, in the package's solver modules.  Returns the undo list."""
+    import importlib
+    import time as _t
+    fake = FakeTimeModule(clock)
+    names = ['monotonic', 'time', 'perf_counter', 'process_time', 'monotonic_ns', 'time_ns', 'perf_counter_ns',
+             'process_time_ns']
+    undo = []
+    for m in ('solver', 'model', 'lp_solver', 'brute_force_solver', 'fileIO', 'options_parser'):
+        try:
+            mod = importlib.import_module('matchingproblems.solver.' + m)
+        except Exception:
+            continue
+        for attr, val in list(vars(mod).items()):
+            if val is _t:
+                undo.append((mod, attr, val))
+                setattr(mod, attr, fake)
+            else:
+                for n in names:
+                    if val is getattr(_t, n, None):
+                        undo.append((mod, attr, val))
+                        setattr(mod, attr, getattr(fake, n))
+    return undo
+
+
 def limit_us(limit):
     return None if limit is None else int(round(limit * 1000000))
 
@@ -48,6 +98,7 @@ def session_run(text, argv, history, faults=None, solve_us=10000):
     clock = Clock()
     real_dt = solver_mod.datetime
     solver_mod.datetime = FakeDatetimeModule(clock)
+    undo_time = script_other_clocks(clock)
     out = dict(t0=None, ops=[], exc_init=None, raw=[], nonintegral=0)
     try:
         with impl.tmpfile(text) as path:
@@ -69,10 +120,12 @@ def session_run(text, argv, history, faults=None, solve_us=10000):
                     n_solve_ops += 1
                     before = len(clock.readings)
 
-                    def on_solve(k, fault, _limit=limit):
+                    def on_solve(k, fault, backend_limit=None, _limit=limit):
                         d = solve_us
                         if fault is not None and fault.get('kind') == 'incumbent':
-                            d = max(solve_us, limit_us(_limit) or 0)      # the stop happens at the limit
+                            # the stop happens at the limit the BACK END was given for this solve
+                            eff = backend_limit if backend_limit is not None else _limit
+                            d = max(solve_us, limit_us(eff) or 0)
                         if fault is not None and fault.get('slow_us'):
                             d = fault['slow_us']
                         clock.advance(d)
@@ -110,6 +163,8 @@ def session_run(text, argv, history, faults=None, solve_us=10000):
                         break
     finally:
         solver_mod.datetime = real_dt
+        for mod, attr, val in undo_time:
+            setattr(mod, attr, val)
     return out
 
 
@@ -127,3 +182,19 @@ def crec(r):
     s = '(Ok %s)' % C.cstr(seen[1]) if seen[0] == 'ok' else '(Crash %s)' % C.cerr(seen[1])
     return '(mkRec %s %s %s %s)' % (cop(r['op']), C.czlist(r['clock']),
                                     C.clist([recorder.csnap(e) for e in r['snaps']]), s)
+
+
+def limits_passed_through(obs):
+    """solve(timeLimit=x) documents x as the limit of EACH underlying optimisation: every recorded solve must have
+    been handed exactly x (None when no limit was asked for)"""
+    for r in obs.get('ops', []):
+        if r['op'][0] != 'solve':
+            continue
+        want = r['op'][1]
+        for e in r.get('snaps', []):
+            got = e.get('backend_limit')
+            if (want is None) != (got is None):
+                return False
+            if want is not None and abs(float(want) - float(got)) > 1e-9:
+                return False
+    return True
